@@ -233,6 +233,32 @@ def modOf (tb : DeriveTables) (st : Settings) (σ : Space) : Mod :=
 def Mod.summary (M : Mod) : Summary :=
   { items := M.items.map (·.base), builders := M.builders, defaultFns := toSet (M.defaultFns ++ M.sharedFns) }
 
+/-! ## auto-deref chains
+
+Every newtype gets `impl Deref { type Target = <inner> }` and `Box<T>` derefs to `T`. rustc collects the whole
+auto-deref chain of the receiver before it looks a method up (`value.clone()` in the `From<&T> for T` template of
+every item), so a chain that never leaves newtypes and boxes is error E0055 even though the types have finite size. -/
+
+/-- the generated item a value of this type derefs to first, looking through `Box` -/
+def Ty.derefHead : Ty → Option Id
+  | .named id _ => some id
+  | .box t => t.derefHead
+  | _ => none
+
+/-- one `Deref` step from item `id`: only newtypes implement `Deref` -/
+def Mod.derefNext (M : Mod) (id : Id) : Option Id :=
+  match M.items.find? (fun m => m.id == id) with
+  | some m => if m.base.kind == "newtype" then (match m.ftys with | [T] => T.derefHead | _ => none) else none
+  | none => none
+
+/-- the chain from `id` leaves the newtypes within `n` steps -/
+def derefEnds (M : Mod) : Nat → Id → Bool
+  | 0, _ => false
+  | n + 1, id =>
+    match M.derefNext id with
+    | none => true
+    | some j => derefEnds M n j
+
 /-! ## impl headers -/
 
 /-- `impl <tr><arg> for <self>` (arg `""` when the trait takes none), as strings of the summary -/
@@ -411,6 +437,8 @@ structure Compiles (env : Env) (M : Mod) : Prop where
   finiteSize : ∃ rank : Id → Nat, ∀ m ∈ M.items, ∀ T ∈ m.allTys, ∀ i ∈ T.byValue, rank i < rank m.id
   /-- serde attribute combinations and format literals are accepted -/
   serdeLegal : ∀ m ∈ M.items, serdeLegalItem m.base = true
+  /-- every auto-deref chain is finite (E0055 otherwise) -/
+  derefFinite : ∀ m ∈ M.items, ∃ n, derefEnds M n m.id = true
 
 /-! ## `WF`: the decidable predicate on the IR -/
 
@@ -557,17 +585,24 @@ def c8_serde (tb : DeriveTables) (st : Settings) (σ : Space) : Bool :=
     | .newtype _ inner (.enumValues _) _ => !isStrInner σ inner
     | _ => true
 
+/-- (9) auto-deref chains leave the newtypes: checked with fuel = number of items + 1 on the emitted module -/
+def c9_deref (tb : DeriveTables) (st : Settings) (σ : Space) : Bool :=
+  let M := modOf tb st σ
+  M.items.all fun m => derefEnds M (M.items.length + 1) m.id
+
 /-- conjunct names, in the order of the property text -/
 def conjuncts (env : Env) (tb : DeriveTables) (st : Settings) (σ : Space) : List (String × Bool) :=
   [("items_unique", c1_items σ), ("no_module_clash", c1_mods σ), ("no_prelude_shadow", c1_prelude σ),
    ("default_fns_unique", c1_defaultFns tb st σ), ("idents", c2_idents σ), ("ids_resolve", c3_ids env tb st σ),
    ("impls_coherent", c4_impls env tb st σ), ("derivable", c5_derives env tb st σ),
-   ("defaults_typed", env.dfltOk), ("acyclic", c7_acyclic σ), ("serde_legal", c8_serde tb st σ)]
+   ("defaults_typed", env.dfltOk), ("acyclic", c7_acyclic σ), ("serde_legal", c8_serde tb st σ),
+   ("deref_finite", c9_deref tb st σ)]
 
 /-- **WF** -/
 def WF (env : Env) (tb : DeriveTables) (st : Settings) (σ : Space) : Bool :=
   c1_items σ && c1_mods σ && c1_prelude σ && c1_defaultFns tb st σ && c2_idents σ && c3_ids env tb st σ &&
-  c4_impls env tb st σ && c5_derives env tb st σ && env.dfltOk && c7_acyclic σ && c8_serde tb st σ
+  c4_impls env tb st σ && c5_derives env tb st σ && env.dfltOk && c7_acyclic σ && c8_serde tb st σ &&
+  c9_deref tb st σ
 
 /-- the environment the IR itself determines (the driver supplies `sameTy` and `dfltOk`) -/
 def envOf (sameTy : String → String → Bool) (dfltOk : Bool) (st : Settings) (σ : Space) : Env :=
